@@ -1,6 +1,7 @@
 (* C12 -- Stream ends are recovered, counted and terminate the client correctly.
-   Model: Model/Stream.v (listenEnd, reopenStream, wait). Tie to /repo: Corr/CorrStream.v. *)
-From Verif Require Import Base.Prelude Base.Bytes Model.Stream Proofs.StreamProofs.
+   Model: Model/Stream.v (listenEnd, wait), Model/Retry.v (the retry loop of reopenStream).
+   Tie to /repo: Corr/CorrStream.v, Corr/CorrC12.v. *)
+From Verif Require Import Base.Prelude Base.Bytes Model.Stream Proofs.StreamProofs Model.Retry Proofs.RetryProofs.
 Local Open Scope N_scope.
 
 (* the active-stream count is the number of assigned vBuckets minus the ends that were final, after
@@ -45,3 +46,48 @@ Example C12_example :
   [[Callback BeforeStreamStart; OpenReq 0 (MkO 0 0 0 0 9); OpenReq 1 (MkO 0 0 0 0 4); Callback AfterStreamStart];
    [OpenReq 0 (MkO 0 0 0 0 9)]; []; [Stop]].
 Proof. vm_compute. reflexivity. Qed.
+
+(* --- the bounded retries of the reopen (Model/Retry.v); nat arithmetic, so the scope is closed here --- *)
+Local Close Scope N_scope.
+
+(* the vBucket is streamed again exactly when some request within the budget succeeds, every earlier one having failed,
+   and the stream was not closed on the way; then exactly k+1 requests were issued *)
+Theorem C12_retry_reopens_iff : forall closed answers,
+  snd (reopen closed answers) = Reopened <->
+  exists k, k < retry_budget /\ closed k = false /\ answers k = true /\ forall j, j < k -> closed j = false /\ answers j = false.
+Proof. exact reopen_reopened_iff. Qed.
+Print Assumptions C12_retry_reopens_iff.
+
+(* the loop is given up quietly exactly when an attempt finds the stream closed (by a rebalance or by Close()), every
+   earlier request having failed: whoever opens the stream again requests every vBucket itself (fix K14) *)
+Theorem C12_retry_abandoned_iff : forall closed answers,
+  snd (reopen closed answers) = Abandoned <->
+  exists k, k < retry_budget /\ closed k = true /\ forall j, j < k -> closed j = false /\ answers j = false.
+Proof. exact reopen_abandoned_iff. Qed.
+Print Assumptions C12_retry_abandoned_iff.
+
+(* complete description of a run: the number of requests and the outcome, for every behaviour of server and closers *)
+Theorem C12_retry_spec : forall closed answers, loop_spec closed answers retry_budget 0 (reopen closed answers).
+Proof. exact reopen_spec. Qed.
+Print Assumptions C12_retry_spec.
+
+(* no request is issued by an attempt that found the stream closed, never more than five; and once the stream stays
+   closed from attempt k on, nothing is requested from then on *)
+Theorem C12_retry_silent_once_closed : forall closed answers,
+  (forall j, In j (reopen_requests closed answers retry_budget 0) -> closed j = false /\ j < retry_budget) /\
+  (forall k, (forall j, k <= j -> closed j = true) -> forall j, In j (reopen_requests closed answers retry_budget 0) -> j < k) /\
+  reopen_requests closed answers retry_budget 0 = seq 0 (fst (reopen closed answers)).
+Proof.
+  intros closed answers. split; [|split].
+  - intros j. apply reopen_never_after_close.
+  - intros k. apply reopen_monotone_close.
+  - apply requests_are_seq.
+Qed.
+Print Assumptions C12_retry_silent_once_closed.
+
+Example C12_retry_example :
+  reopen (closed_of None) (answers_of 2) = (3, Reopened) /\
+  reopen (closed_of None) (answers_of 7) = (5, GaveUp) /\
+  reopen (closed_of (Some 2)) (answers_of 4) = (2, Abandoned) /\
+  reopen (closed_of (Some 0)) (answers_of 0) = (0, Abandoned).
+Proof. vm_compute. repeat split; reflexivity. Qed.
